@@ -147,6 +147,8 @@ def generate(rnd, tier, scale):
             # evaluation of the other function cut at depth 0: its own sentinel alone
             case["via"] = "foreach"
             case["calls"] = case["calls"] + [[len(fns) - 1, 0, ["i", 0]], [0, 0, ["i", 0]]]
+        if rnd.random() < 0.2:
+            case["prime"] = True
         try:
             if E.run_reference(case) is None:
                 continue  # does not terminate under its limits
